@@ -259,3 +259,11 @@ package filters
 //@ panics values.TypeError
 //@ requires args: length != nil && ellipsis != nil
 //@ assigns alloc S$Int, alloc S$Val
+
+//@ func (filters.keySortable).Less
+//@ props C01 C15
+//@ panics nothing
+//@ requires inrange: 0 <= i && i < len(s.slice) && 0 <= j && j < len(s.slice) && s.keyFn != nil
+//@ func functype func(any) string
+//@ names m
+//@ assigns nothing
